@@ -4,6 +4,7 @@ import (
 	"context"
 	"fmt"
 	"math"
+	"math/rand"
 	"os"
 	"strings"
 )
@@ -266,6 +267,7 @@ type Global struct {
 	builtinMts map[int]LValue
 	tempFiles  []*os.File
 	gccount    int32
+	rnd        *rand.Rand // generator of math.random once math.randomseed was called
 }
 
 type LState struct {
